@@ -398,6 +398,10 @@ pub fn run_c07(p: &Params) -> Report {
     let adlt_bin = p.val("adlt_bin");
     let remote_every: u64 = p.val("remote_every").and_then(|v| v.parse().ok()).unwrap_or(4000);
     let mut remote = RemoteFrontDoor::default();
+    if let (Some(bin), 0) = (&adlt_bin, p.shard) {
+        let mut rng = Rng::new(p.case_seed(u64::MAX) ^ 0xC07);
+        remote.known_finding_witness(&mut rep, &mut rng, bin);
+    }
     while (p.cases == 0 || i < p.cases) && !p.time_up() {
         let mut rng = Rng::new(p.case_seed(i) ^ 0xC07);
         let (s, s2) = if rng.chance(1, 12) { (gen_many_lifecycles(&mut rng), None) } else { gen_case(p, i, &mut rng) };
@@ -453,9 +457,41 @@ pub struct RemoteFrontDoor {
     srv: Option<crate::remote::Server>,
     dir: Option<tempfile::TempDir>,
     used: u32,
+    force_env: Option<Vec<(String, String)>>,
 }
 impl RemoteFrontDoor {
+    /// the recorded witness of the known finding `remote:client-keeps-lifecycle-that-was-merged-away` (a few attempts:
+    /// the server loop has to poll the table between the publication and the merge)
+    pub fn known_finding_witness(&mut self, rep: &mut Report, rng: &mut Rng, bin: &str) {
+        let path = concat!(env!("CARGO_MANIFEST_DIR"), "/../findings/C07_remote_merged_lifecycle.json");
+        let scen = match std::fs::read_to_string(path).ok().and_then(|s| serde_json::from_str::<serde_json::Value>(&s).ok()) {
+            Some(v) if v["witness_scenario"].is_object() => scenario_from_json(&v["witness_scenario"]),
+            _ => return,
+        };
+        for attempt in 0..4u64 {
+            let before = rep.violation_classes.get("remote:client-keeps-lifecycle-that-was-merged-away").copied().unwrap_or(0);
+            // a fresh, slow server for every attempt
+            if let Some(s) = self.srv.take() {
+                s.kill();
+            }
+            self.used = 0;
+            self.force_env = Some(vec![("ADLT_VERIF_CHAN_CAP".to_string(), "1".to_string()), ("ADLT_VERIF_PAUSE".to_string(), "ParserMsg:1:300".to_string())]);
+            self.case_with(rep, rng, bin, 900_000 + attempt, Some(scen.clone()));
+            self.force_env = None;
+            rep.inc("known_finding_witness_runs");
+            if rep.violation_classes.get("remote:client-keeps-lifecycle-that-was-merged-away").copied().unwrap_or(0) > before {
+                break;
+            }
+        }
+        if let Some(s) = self.srv.take() {
+            s.kill();
+        }
+        self.used = 0;
+    }
     pub fn case(&mut self, rep: &mut Report, rng: &mut Rng, bin: &str, case_no: u64) {
+        self.case_with(rep, rng, bin, case_no, None)
+    }
+    fn case_with(&mut self, rep: &mut Report, rng: &mut Rng, bin: &str, case_no: u64, fixed: Option<Scenario>) {
         use crate::remote::*;
         use std::time::{Duration, Instant};
         if self.dir.is_none() {
@@ -476,7 +512,8 @@ impl RemoteFrontDoor {
         }
         if self.srv.is_none() {
             let cap = *rng.pick(&["1", "2", "7", "64"]);
-            self.srv = Server::spawn(bin, &dir, &[("ADLT_VERIF_CHAN_CAP".to_string(), cap.to_string())]);
+            let env = self.force_env.clone().unwrap_or_else(|| vec![("ADLT_VERIF_CHAN_CAP".to_string(), cap.to_string())]);
+            self.srv = Server::spawn(bin, &dir, &env);
         }
         let port = match &self.srv {
             Some(s) => s.port,
@@ -488,7 +525,16 @@ impl RemoteFrontDoor {
         self.used += 1;
         // a trace where a confirmed lifecycle keeps receiving messages while another one stays buffered until the end
         let hostile = rng.chance(1, 3);
-        let scen = if rng.chance(1, 3) { gen_targeted(rng) } else { gen_scenario(rng, hostile, 300) };
+        let scen = match fixed {
+            Some(s) => s,
+            None => {
+                if rng.chance(1, 3) {
+                    gen_targeted(rng)
+                } else {
+                    gen_scenario(rng, hostile, 300)
+                }
+            }
+        };
         let msgs = to_dlt(&scen, case_no as u32);
         if msgs.is_empty() {
             return;
@@ -567,7 +613,19 @@ impl RemoteFrontDoor {
         if client_counts(&cl) != expected_counts {
             let mut t: Vec<(u32, u32)> = cl.lifecycle_counts.iter().map(|(k, v)| (*k, *v)).collect();
             t.sort_unstable();
-            rep.violation("remote:client-table-counts-do-not-add-up", format!("all {} messages of the file were announced (FileInfo), but 10 s later the lifecycle table received by the client (id, messages) is {:?}; the final table of the detector has the message counts {:?} (lifecycles of control requests only are not announced)", n, t, expected_counts), rp());
+            // two different failures: (a) the client has every lifecycle of the final table with the right count plus
+            // lifecycles that were published once and merged away later (the protocol never retracts a lifecycle);
+            // (b) a count is stale or missing
+            let mut rest = client_counts(&cl);
+            let contains_all = expected_counts.iter().all(|e| match rest.iter().position(|c| c == e) {
+                Some(p) => {
+                    rest.remove(p);
+                    true
+                }
+                None => false,
+            });
+            let class = if contains_all && !rest.is_empty() { "remote:client-keeps-lifecycle-that-was-merged-away" } else { "remote:client-table-counts-do-not-add-up" };
+            rep.violation(class, format!("all {} messages of the file were announced (FileInfo), but 10 s later the lifecycle table received by the client (id, messages) is {:?}; the final table of the detector has the message counts {:?} (lifecycles of control requests only are not announced)", n, t, expected_counts), rp());
             if let Some(s) = self.srv.take() {
                 s.kill();
             }
